@@ -108,7 +108,8 @@ class RetryDriver:
         if form == "bare":
             return None
         catching = {"class": E1, "tuple": (E1, E3), "set": {E1, E3}, "related": (E1Sub, E1),
-                    "tuple_with_cancelled": (E1, E3, asyncio.CancelledError), "all": Exception}[form]
+                    "tuple_with_cancelled": (E1, E3, asyncio.CancelledError), "all": Exception,
+                    "empty_tuple": (), "empty_set": set()}[form]
         kw = dict(limit=c["limit"], catching=catching)
         if delay == "int":
             kw["delay"] = 2
@@ -242,7 +243,7 @@ class RetryDriver:
 
 def gen_trace(rnd, max_limit=9):
     """one call with a random configuration (limit up to 9) and a random outcome script, recorded from the real wrapper"""
-    form = rnd.choice(["class", "tuple", "set", "tuple_with_cancelled", "related", "all", "bare"])
+    form = rnd.choice(["class", "tuple", "set", "tuple_with_cancelled", "related", "all", "bare", "empty_tuple", "empty_set"])
     cfg = dict(limit=1, form="bare", delay="none", mode=rnd.choice(["sync", "async"])) if form == "bare" else \
         dict(limit=rnd.randint(1, max_limit), form=form, delay=rnd.choice(["none", "int", "float", "fn"]),
              mode=rnd.choice(["sync", "async"]))
